@@ -94,6 +94,20 @@ def cli_pair_runs(ctx):
             cases.append({"id": len(cases), "files": [{"rel": "graphql.config.json", "text": cfg}, {"rel": "schema/s.graphql", "text": base + t},
                                                        {"rel": "ops/q.graphql", "text": o + "\n"}], "args": ["generate"], "texts": False})
             texts.append(base + t + "---\n" + o)
+    # projects of SEVERAL operation files: fragment names are unique per file only, so two files may each define a fragment `P` - one of them
+    # faulty in a way the printer cannot handle.  Whatever is remembered while one file is checked may not excuse the other file.
+    good = ["fragment P on Query { a }", "fragment P on Query { n { y } }", "fragment P on N { y }"]
+    bad = ["fragment P on Query { nope }", "fragment P on Query { n { nope } }", "fragment P on Query { a { deep } }", "fragment P on Query { n }",
+           "fragment P on N { nope }", "fragment P on Query { ... on N { y } }", "fragment P on Gone { a }"]
+    use = {"Query": "query %s { ...P }", "N": "query %s { n { ...P } }", "Gone": "query %s { ...P }"}
+    for gi, g in enumerate(good):
+        for b in bad:
+            for first_bad in (False, True):
+                ft = [x + "\n" + use[x.split()[3]] % ("Q%d" % k) + "\n" for k, x in enumerate((b, g) if first_bad else (g, b))]
+                cases.append({"id": len(cases), "files": [{"rel": "graphql.config.json", "text": cfg}, {"rel": "schema/s.graphql", "text": base},
+                                                           {"rel": "ops/a.graphql", "text": ft[0]}, {"rel": "ops/b.graphql", "text": ft[1]}],
+                              "args": ["generate"], "texts": False})
+                texts.append(base + "---\n" + ft[0] + "---\n" + ft[1])
     vlib.write_ndjson(ctx.path("pair_cases.ndjson"), cases)
     vlib.run_harness(["cliproj", vlib.CLI_BIN, ctx.path("pair_cases.ndjson"), ctx.path("pair_runs.ndjson"), ctx.path("pairproj"), "12"], timeout=3000)
     out = []
@@ -195,7 +209,7 @@ def run(ctx, res):
                 "spread one fragment several times under different conditions, random Unicode strings, nesting depth 8/32/64 and %d configuration texts; "
                 "plus 256 configurations that parse (every combination of the five output options x with / without operation documents x mode x model plugin) "
                 "run through the real CLI's `generate`, as are ~150 schema x operation pairs whose schema uses one name for two kinds of type, redefines a built-in "
-                "directive, defines a directive twice, or has a recursive directive that another directive uses (termination). Every "
+                "directive, defines a directive twice, or has a recursive directive that another directive uses (termination), and 42 projects of two operation files that each define a fragment of the same name, one of them faulty (whatever is remembered from one file may not excuse the other). Every "
                 "text is fed to every stage the pipeline model reaches (parse, extensions, imports, check, then generation or diagnostic "
                 "rendering; and the loader ABI without check) in crash-isolated child processes. Impl->spec: Trace_C08 accepts only ok/err "
                 "outcomes within 5 s per stage and checks the stage order against the model. Non-trivial = input that got past the first stage."
